@@ -62,7 +62,7 @@ def gen(prop, stream, tier, avoid):
         objs.append(spec)
     use_cont = kn.chance(0.6)
     nops = kn.pick([3, 4, 5, 6, 8, 10, 14, 20] + ([30, 40] if tier == "thorough" else []))
-    W = [("sample", 3), ("tessellate", 3), ("read", 4), ("edit", 1.5), ("quad", 0.7), ("export", 3), ("bad_tessellate", 0.5)]
+    W = [("sample", 3), ("tessellate", 3), ("read", 4), ("edit", 1.5), ("quad", 0.7), ("export", 3), ("bad_tessellate", 0.5), ("subeval", 0.6)]
     if use_cont:
         W += [("cadd", 2.5), ("csample", 1), ("ctess", 2.5), ("cread", 2.5), ("ctessellator", 0.6)]
     W = [(k, w * kn.uniform(0.4, 1.4)) for k, w in W]
@@ -85,6 +85,12 @@ def gen(prop, stream, tier, avoid):
             op["force"] = rng.chance(0.5)
         elif k == "edit":
             op["seed"] = rng.randrange(1 << 30)
+        elif k == "subeval":
+            # the caller evaluates part of the domain only (documented: evaluate(start_u=..., stop_u=..., ...)); in 1/16 of the domain
+            a_, b_ = sorted(rng.sample(range(0, 17), 2))
+            c_, d_ = sorted(rng.sample(range(0, 17), 2))
+            op["range"] = [a_ / 16.0, b_ / 16.0, c_ / 16.0, d_ / 16.0]
+            op["dirs"] = rng.pick(["uv", "u", "v"])
         elif k == "bad_tessellate":
             op["how"] = rng.pick(["spacing_zero", "spacing_zero", "spacing_negative", "container_spacing_zero"])
             op["after_reset"] = rng.chance(0.7)
@@ -528,6 +534,18 @@ def run(script, ctx):
             s.set_ctrlpts([[c * w for c in p] + [w] for p, w in zip(P, Wt)] if spec["rational"] else P, *spec["sizes"])
             ctx.log("edit", i)
             ctx.ops_executed += 1
+            touched(st)
+        elif k == "subeval":
+            a_, b_, c_, d_ = op["range"]
+            kw = {}
+            if "u" in op["dirs"]:
+                kw.update(start_u=a_, stop_u=b_)
+            if "v" in op["dirs"]:
+                kw.update(start_v=c_, stop_v=d_)
+            s.evaluate(**kw)
+            ctx.log("subeval", i, sorted(kw.items()))
+            ctx.ops_executed += 1
+            ctx.probe("partial_domain_evaluation_before_mesh")
             touched(st)
         elif k == "bad_tessellate":
             # a tessellation request the library cannot carry out: whatever it does with it (raise, ignore), the next
